@@ -231,3 +231,16 @@ Theorem C07_frame_conformant_hc_stream_discharged : forall st, (forall n, horc_o
     chain strict_valid (p_blockMode (eff_prefs po) =? 1) (dict_of dk) maxb [] bl.
 Proof. exact c07_conformant_hc_stream. Qed.
 Print Assumptions C07_frame_conformant_hc_stream_discharged.
+
+(* level 2 (LZ4MID): linked blocks, dictionaries and CDict through the LZ4MID stream model (Proofs/BlkInstMidLinked.v) *)
+From LZ4V Require Import Model.HcMidStream Proofs.BlkInstMidLinked Proofs.BlkFrameInstMid.
+Theorem C07_frame_conformant_mid_stream_discharged : forall st, (forall n, morc_ok (st n)) ->
+  forall c0 po dk ms F X,
+  prefs_opt_ok po -> uncompressed_only_if_independent po ms -> len X < U64 ->
+  p_level (eff_prefs po) = 2 ->
+  session (blk_mid_linked st) c0 po dk ms = Some (F, X) ->
+  frame_decode strict_valid false (dict_of dk) F = Some (X, []) /\
+  exists maxb bl, bsid_size (p_bsid (eff_prefs po)) = Some maxb /\ X = contents bl /\
+    chain strict_valid (p_blockMode (eff_prefs po) =? 1) (dict_of dk) maxb [] bl.
+Proof. exact c07_conformant_mid_stream. Qed.
+Print Assumptions C07_frame_conformant_mid_stream_discharged.
